@@ -313,7 +313,7 @@ Qed.
 Lemma slice_pos_Err n s e : slice_pos n s = Err e <-> e = EValue /\ sl_step s = Some 0%Z.
 Proof.
   unfold slice_pos. destruct (slice_indices (Z.of_nat n) s) as [[[start stop] step]|e0] eqn:E; cbn.
-  - split; [discriminate|]. intro H. apply slice_indices_Err in H. rewrite H in E. discriminate.
+  - split; [discriminate|]. intro H. apply (proj2 (slice_indices_Err (Z.of_nat n) s e)) in H. rewrite H in E. discriminate.
   - rewrite <- (slice_indices_Err (Z.of_nat n) s e). rewrite E. split; congruence.
 Qed.
 
